@@ -11,6 +11,7 @@ package main
 import (
 	"fmt"
 	"sort"
+	"strconv"
 	"strings"
 	"unicode"
 
@@ -175,6 +176,12 @@ func (h *H) hypAscii() {
 
 // emitXpu runs one chord of a character key under the legacy and a kitty encoding on the real code.
 func (h *H) emitXpu(kind, class string, c, C rune, m int, form int) {
+	h.emitXpg(kind, class, c, C, m, form, nil)
+}
+
+// emitXpg: as emitXpu, with further code points `rest` of a grapheme cluster typed on the key (legacy: the
+// cluster's bytes; kitty: the cluster as associated text). rest == nil is the single-code-point xpu op.
+func (h *H) emitXpg(kind, class string, c, C rune, m int, form int, rest []rune) {
 	r := h.r
 	ch := chord{mods: m}
 	produced := c
@@ -184,6 +191,9 @@ func (h *H) emitXpu(kind, class string, c, C rune, m int, form int) {
 	}
 	if form&16 != 0 {
 		ch.text = []int{int(produced)}
+		for _, x := range rest {
+			ch.text = append(ch.text, int(x))
+		}
 	}
 	kb := kittyBytes(int(c), 'u', ch, form)
 	sk := parse(kb)
@@ -197,13 +207,13 @@ func (h *H) emitXpu(kind, class string, c, C rune, m int, form int) {
 			r.Count("xpu-legacy-alt-not-parseable(direct ESC value)")
 		}
 	} else {
-		sl = parse(string(produced))
+		sl = parse(string(produced) + string(rest))
 	}
 	if len(sl) != 1 || len(sk) != 1 {
 		r.Count("skipped:xpu:not-one-sequence")
 		return
 	}
-	if p, ok := sl[0].(ansi.Print); ok && p.Grapheme != string(produced) {
+	if p, ok := sl[0].(ansi.Print); ok && p.Grapheme != string(produced)+string(rest) {
 		r.Count("skipped:xpu:parser-changed-the-grapheme")
 		return
 	}
@@ -258,6 +268,16 @@ func (h *H) emitXpu(kind, class string, c, C rune, m int, form int) {
 	sh := 0
 	if m&1 != 0 {
 		sh = int(C)
+	}
+	if len(rest) > 0 {
+		var rt []string
+		for _, x := range rest {
+			rt = append(rt, strconv.Itoa(int(x)))
+			u.add(x)
+		}
+		r.Emit(fmt.Sprintf("xpg %s %s %s F=- %d %d %d %d %d %d %s %s %s %s", kind, class, u.tok(), c, 'u', c, m, sh, form, strings.Join(rt, "."), strings.Join(p, ","), tl, tk), impl)
+		r.Count("xpg:" + kind)
+		return
 	}
 	r.Emit(fmt.Sprintf("xpu %s %s %s F=- %d %d %d %d %d %d %s %s %s", kind, class, u.tok(), c, 'u', c, m, sh, form, strings.Join(p, ","), tl, tk), impl)
 	r.Count("xpu:" + kind + ":" + class)
@@ -419,6 +439,38 @@ func (h *H) uniStreams() {
 		if shiftExpr {
 			for _, f := range []int{5, 13} {
 				h.emitXpu("altshift", classOf(resAS), c, C, 3, f)
+			}
+		}
+	}
+	h.graphemeStreams()
+}
+
+// graphemeStreams: multi-code-point grapheme clusters typed on a key (compose / dead keys / IME) under both
+// encodings — legacy: the cluster's bytes (one ansi.Print), kitty: the cluster as associated text
+// (Props/C09Uni cross_protocol_grapheme_plain / _shift: the two reports decode to the same event).
+func (h *H) graphemeStreams() {
+	rests := [][]rune{{0x301}, {0x308, 0x323}, {0x200d, 0x1f469}, {0xfe0f}, {0x94d, 0x937}, {0x1f3fd}}
+	bases := []rune{'e', 'a', 'o', 'é', 'ф', 'ß', 'क', 0x1f468, 0x263a, 0x1f44d, 'i', 'k'}
+	if h.r.Thorough {
+		for _, x := range h.uniPoints() {
+			if !unicode.IsUpper(x) && unicode.IsPrint(x) && x >= 0x80 {
+				bases = append(bases, x)
+			}
+		}
+	}
+	for _, c := range bases {
+		if unicode.IsUpper(c) || functionalU(c) || c < 0x20 || c == 0x7f {
+			continue
+		}
+		for _, rest := range rests {
+			for _, f := range []int{20, 28} {
+				h.emitXpg("plain", "cluster", c, 0, 0, f, rest)
+			}
+			C := unicode.ToUpper(c)
+			if C != c && unicode.IsUpper(C) && unicode.ToLower(C) == c {
+				for _, f := range []int{21, 29} {
+					h.emitXpg("shift", "cluster", c, C, 1, f, rest)
+				}
 			}
 		}
 	}
